@@ -238,7 +238,7 @@ def replay_witness(m, witness):
     kw['predictor_metadata'][0]['window'] = wv
     sql = sql_of(m).replace('555', str(cv)).replace('556', str(c2v))
     plan = PL.plan_sql(sql, **kw)
-    con = sqlite3.connect(':memory:')
+    con = SR.connect()
     con.execute('CREATE TABLE tbl (g INTEGER, g2 INTEGER, ts INTEGER, v INTEGER)')
     rows = [tuple(r) for r in witness['table']]
     con.executemany('INSERT INTO tbl VALUES (?,?,?,?)', rows)
